@@ -95,6 +95,25 @@ Section Align.
       rewrite (Hn a i Hi), (Hn b j Hj), Hgx. reflexivity.
   Qed.
 
+  Theorem hlle_M_perm n k p q nb (Hx Hx' : nat -> mat F) :
+    is_bij n p q -> rows_in_range n nb ->
+    (forall y a b, y < n -> Hx' (p y) a b = Hx y a b) ->
+    meq n n (hlle_M n k (pnbrs p q nb) Hx') (pact q (hlle_M n k nb Hx)).
+  Proof.
+    intros Hb Hr Hg i j Hi Hj. pose proof Hb as (Hp & Hq & Hqp & Hpq).
+    unfold pact, hlle_M.
+    rewrite <- (sumn_perm n p q (fun x => sumn k (fun a => sumn k (fun b =>
+          delta (nbr nb x a) (q i) * delta (nbr nb x b) (q j) * Hx x a b))) Hb).
+    apply sumn_ext. intros x' Hxn.
+    assert (Hgx : forall a b, Hx' x' a b = Hx (q x') a b).
+    { intros a b. rewrite <- (Hpq x' Hxn) at 1. apply Hg. apply Hq. exact Hxn. }
+    assert (Hn : forall a t, t < n -> delta (F:=F) (nbr (pnbrs p q nb) x' a) t = delta (nbr nb (q x') a) (q t)).
+    { intros a t Ht. rewrite (nbr_pnbrs n p q nb x' a Hb Hxn).
+      eapply delta_bij; eauto. apply nbr_in_range; [exact Hr|apply Hq; exact Hxn]. }
+    apply sumn_ext. intros a _. apply sumn_ext. intros b _.
+    rewrite (Hn a i Hi), (Hn b j Hj), Hgx. reflexivity.
+  Qed.
+
   (* ------------------------------------------------------------------ *)
   (* row and column sums                                                  *)
   (* ------------------------------------------------------------------ *)
